@@ -9,7 +9,9 @@
    >= 3 user quotas. The runtime-quota calculators, shared weight, scale-min manager and the
    cluster total are not part of the accounting and are left out (C02 covers the calculators).
 
-   No proofs in this file. *)
+   The quotaInfoMap is represented column-wise: the list of quota "shapes" (name, parent, flags,
+   max, min) and three maps from names to the request aggregates, the used aggregates and the
+   PodCache. No proofs in this file. *)
 From Coq Require Import List ZArith Bool.
 From Verif Require Import Lib.Vec2.
 Import ListNotations.
@@ -42,162 +44,162 @@ Record uacc := mkU { u_used : vec; u_sused : vec; u_np : vec; u_snp : vec }.
 Definition r0 : racc := mkR vzero vzero vzero vzero vzero.
 Definition u0 : uacc := mkU vzero vzero vzero vzero.
 
-Record qinfo := mkQ {
-  q_name : Z; q_parent : Z; q_isparent : bool; q_lend : bool;
-  q_max : vec; q_min : vec;
-  q_r : racc; q_u : uacc;
-  q_pods : list pinfo
+Record qshape := mkQ {
+  q_name : Z; q_parent : Z; q_isparent : bool; q_lend : bool; q_max : vec; q_min : vec
 }.
 
-Notation state := (list qinfo).
+Record state := mkSt {
+  st_sh : list qshape;          (* the quotas that exist *)
+  st_r : Z -> racc;
+  st_u : Z -> uacc;
+  st_p : Z -> list pinfo
+}.
 
-Definition set_r (qi : qinfo) (r : racc) : qinfo :=
-  mkQ (q_name qi) (q_parent qi) (q_isparent qi) (q_lend qi) (q_max qi) (q_min qi) r (q_u qi) (q_pods qi).
-Definition set_u (qi : qinfo) (u : uacc) : qinfo :=
-  mkQ (q_name qi) (q_parent qi) (q_isparent qi) (q_lend qi) (q_max qi) (q_min qi) (q_r qi) u (q_pods qi).
-Definition set_pods (qi : qinfo) (ps : list pinfo) : qinfo :=
-  mkQ (q_name qi) (q_parent qi) (q_isparent qi) (q_lend qi) (q_max qi) (q_min qi) (q_r qi) (q_u qi) ps.
-Definition set_max (qi : qinfo) (m : vec) : qinfo :=
-  mkQ (q_name qi) (q_parent qi) (q_isparent qi) (q_lend qi) m (q_min qi) (q_r qi) (q_u qi) (q_pods qi).
-Definition set_min (qi : qinfo) (m : vec) : qinfo :=
-  mkQ (q_name qi) (q_parent qi) (q_isparent qi) (q_lend qi) (q_max qi) m (q_r qi) (q_u qi) (q_pods qi).
+Definition fupd {A} (f : Z -> A) (n : Z) (v : A) : Z -> A := fun m => if m =? n then v else f m.
+
+Definition set_sh (s : state) (sh : list qshape) : state := mkSt sh (st_r s) (st_u s) (st_p s).
+Definition set_R (s : state) (R : Z -> racc) : state := mkSt (st_sh s) R (st_u s) (st_p s).
+Definition set_U (s : state) (U : Z -> uacc) : state := mkSt (st_sh s) (st_r s) U (st_p s).
+Definition set_P (s : state) (P : Z -> list pinfo) : state := mkSt (st_sh s) (st_r s) (st_u s) P.
 
 (* ---------- the quota map ---------- *)
 
-Fixpoint find (s : state) (n : Z) : option qinfo :=
-  match s with
+Fixpoint find (sh : list qshape) (n : Z) : option qshape :=
+  match sh with
   | [] => None
-  | qi :: t => if q_name qi =? n then Some qi else find t n
+  | q :: t => if q_name q =? n then Some q else find t n
   end.
 
-Definition upd (s : state) (n : Z) (f : qinfo -> qinfo) : state :=
-  map (fun qi => if q_name qi =? n then f qi else qi) s.
+Definition upd_sh (sh : list qshape) (n : Z) (f : qshape -> qshape) : list qshape :=
+  map (fun q => if q_name q =? n then f q else q) sh.
 
-Definition remove_q (s : state) (n : Z) : state :=
-  filter (fun qi => negb (q_name qi =? n)) s.
+Definition remove_sh (sh : list qshape) (n : Z) : list qshape :=
+  filter (fun q => negb (q_name q =? n)) sh.
 
 (* getCurToAllParentGroupQuotaInfoNoLock: the quota and its ancestors, bottom-up. The root entry
    (and the stop at a missing parent) is where the list ends. *)
-Fixpoint path (fuel : nat) (s : state) (n : Z) : list Z :=
+Fixpoint path (fuel : nat) (sh : list qshape) (n : Z) : list Z :=
   match fuel with
   | O => []
-  | S f => match find s n with
+  | S f => match find sh n with
            | None => []
-           | Some qi => n :: path f s (q_parent qi)
+           | Some q => n :: path f sh (q_parent q)
            end
   end.
-Definition pathf (s : state) (n : Z) : list Z := path (S (length s)) s n.
+Definition pathf (sh : list qshape) (n : Z) : list Z := path (S (length sh)) sh n.
 
 (* getLimitRequestNoLock: min(Request, Max) *)
-Definition lim (qi : qinfo) : vec := vmin (r_req (q_r qi)) (q_max qi).
+Definition lim (q : qshape) (r : racc) : vec := vmin (r_req r) (q_max q).
 (* Request as a function of ChildRequest: a quota that does not lend asks for at least its min *)
-Definition freq (qi : qinfo) (creq : vec) : vec := if q_lend qi then creq else vmax creq (q_min qi).
+Definition freq (q : qshape) (creq : vec) : vec := if q_lend q then creq else vmax creq (q_min q).
 
 (* ---------- delta propagation ---------- *)
 
 (* one iteration of recursiveUpdateGroupTreeWithDeltaRequest on a non-root quota:
    addRequestNonNegativeNoLock (its write to Request is overwritten below),
    addChildRequestNonNegativeNoLock, Request := ChildRequest raised to Min unless lending *)
-Definition req_node (d dnp : vec) (self : bool) (qi : qinfo) : qinfo :=
-  let r := q_r qi in
+Definition req_node (q : qshape) (d dnp : vec) (self : bool) (r : racc) : racc :=
   let creq' := vclamp (vadd (r_creq r) d) in
-  set_r qi (mkR (freq qi creq') creq'
-                (if self then vclamp (vadd (r_sreq r) d) else r_sreq r)
-                (vclamp (vadd (r_np r) dnp))
-                (if self then vclamp (vadd (r_snp r) dnp) else r_snp r)).
+  mkR (freq q creq') creq'
+      (if self then vclamp (vadd (r_sreq r) d) else r_sreq r)
+      (vclamp (vadd (r_np r) dnp))
+      (if self then vclamp (vadd (r_snp r) dnp) else r_snp r).
 
 (* recursiveUpdateGroupTreeWithDeltaRequest over the bottom-up list [l]; [self] = the first
    element is the quota the pods belong to (selfQuotaIndex 0; -1 otherwise). The delta handed to
    the parent is the change of the max-limited request; the non-preemptible delta is unchanged. *)
-Fixpoint walk_req (s : state) (l : list Z) (d dnp : vec) (self : bool) : state :=
+Fixpoint walk_req (sh : list qshape) (R : Z -> racc) (l : list Z) (d dnp : vec) (self : bool)
+  : Z -> racc :=
   match l with
-  | [] => s
+  | [] => R
   | n :: rest =>
-      match find s n with
-      | None => s
-      | Some qi =>
-          let qi' := req_node d dnp self qi in
-          walk_req (upd s n (fun _ => qi')) rest (vsub (lim qi') (lim qi)) dnp false
+      match find sh n with
+      | None => R
+      | Some q =>
+          let r' := req_node q d dnp self (R n) in
+          walk_req sh (fupd R n r') rest (vsub (lim q r') (lim q (R n))) dnp false
       end
   end.
 
 (* addUsedNonNegativeNoLock *)
-Definition used_node (d dnp : vec) (self : bool) (qi : qinfo) : qinfo :=
-  let u := q_u qi in
-  set_u qi (mkU (vclamp (vadd (u_used u) d))
-                (if self then vclamp (vadd (u_sused u) d) else u_sused u)
-                (vclamp (vadd (u_np u) dnp))
-                (if self then vclamp (vadd (u_snp u) dnp) else u_snp u)).
+Definition used_node (d dnp : vec) (self : bool) (u : uacc) : uacc :=
+  mkU (vclamp (vadd (u_used u) d))
+      (if self then vclamp (vadd (u_sused u) d) else u_sused u)
+      (vclamp (vadd (u_np u) dnp))
+      (if self then vclamp (vadd (u_snp u) dnp) else u_snp u).
 
 (* updateGroupDeltaUsedNoLock: the same delta on every quota of the list *)
-Fixpoint walk_used (s : state) (l : list Z) (d dnp : vec) (self : bool) : state :=
+Fixpoint walk_used (U : Z -> uacc) (l : list Z) (d dnp : vec) (self : bool) : Z -> uacc :=
   match l with
-  | [] => s
-  | n :: rest => walk_used (upd s n (used_node d dnp self)) rest d dnp false
+  | [] => U
+  | n :: rest => walk_used (fupd U n (used_node d dnp self (U n))) rest d dnp false
   end.
 
 (* updateGroupDeltaRequestNoLock / updateGroupDeltaUsedNoLock *)
 Definition delta_req (s : state) (n : Z) (d dnp : vec) (self : bool) : state :=
-  walk_req s (pathf s n) d dnp self.
+  set_R s (walk_req (st_sh s) (st_r s) (pathf (st_sh s) n) d dnp self).
 Definition delta_used (s : state) (n : Z) (d dnp : vec) (self : bool) : state :=
-  walk_used s (pathf s n) d dnp self.
+  set_U s (walk_used (st_u s) (pathf (st_sh s) n) d dnp self).
 
 (* ---------- pod cache ---------- *)
 
-Definition has_pod (qi : qinfo) (id : Z) : bool := existsb (fun pi => pi_id pi =? id) (q_pods qi).
-Definition asg_pod (qi : qinfo) (id : Z) : bool :=
-  existsb (fun pi => (pi_id pi =? id) && pi_asg pi) (q_pods qi).
-Definition exists_in (s : state) (q id : Z) : bool :=
-  match find s q with Some qi => has_pod qi id | None => false end.
-Definition is_asg (s : state) (q id : Z) : bool :=
-  match find s q with Some qi => asg_pod qi id | None => false end.
+Definition has_pod (ps : list pinfo) (id : Z) : bool := existsb (fun pi => pi_id pi =? id) ps.
+Definition asg_pod (ps : list pinfo) (id : Z) : bool :=
+  existsb (fun pi => (pi_id pi =? id) && pi_asg pi) ps.
+Definition exists_q (s : state) (q : Z) : bool :=
+  match find (st_sh s) q with Some _ => true | None => false end.
+Definition exists_in (s : state) (q id : Z) : bool := exists_q s q && has_pod (st_p s q) id.
+Definition is_asg (s : state) (q id : Z) : bool := exists_q s q && asg_pod (st_p s q) id.
 
+Definition map_pod (ps : list pinfo) (id : Z) (f : pinfo -> pinfo) : list pinfo :=
+  map (fun pi => if pi_id pi =? id then f pi else pi) ps.
 Definition upd_pod (s : state) (q id : Z) (f : pinfo -> pinfo) : state :=
-  upd s q (fun qi => set_pods qi (map (fun pi => if pi_id pi =? id then f pi else pi) (q_pods qi))).
+  set_P s (fupd (st_p s) q (map_pod (st_p s q) id f)).
 
-(* addPodIfNotPresent / removePodIfPresent *)
+(* addPodIfNotPresent / removePodIfPresent (no-ops on a quota that does not exist) *)
 Definition cache_add (s : state) (q id : Z) : state :=
-  upd s q (fun qi => if has_pod qi id then qi
-                     else set_pods qi (q_pods qi ++ [mkPI id false vzero vzero vzero vzero])).
+  if exists_q s q && negb (has_pod (st_p s q) id)
+  then set_P s (fupd (st_p s) q (st_p s q ++ [mkPI id false vzero vzero vzero vzero]))
+  else s.
 Definition cache_del (s : state) (q id : Z) : state :=
-  upd s q (fun qi => set_pods qi (filter (fun pi => negb (pi_id pi =? id)) (q_pods qi))).
+  if exists_q s q
+  then set_P s (fupd (st_p s) q (filter (fun pi => negb (pi_id pi =? id)) (st_p s q)))
+  else s.
 (* UpdatePodIsAssigned (setting the flag it already has is an error return without effect) *)
 Definition set_asg (s : state) (q id : Z) (b : bool) : state :=
-  upd_pod s q id (fun pi => mkPI (pi_id pi) b (pi_areq pi) (pi_anp pi) (pi_aused pi) (pi_anpused pi)).
+  if exists_q s q
+  then upd_pod s q id (fun pi => mkPI (pi_id pi) b (pi_areq pi) (pi_anp pi) (pi_aused pi) (pi_anpused pi))
+  else s.
 
 Definition oreq (o : option pod) : vec := match o with Some p => p_req p | None => vzero end.
 Definition onp (o : option pod) : vec := match o with Some p => p_npreq p | None => vzero end.
 Definition oid (old new : option pod) : Z :=
   match old, new with Some p, _ => p_id p | None, Some p => p_id p | None, None => 0 end.
-Definition oasg (qi : qinfo) (o : option pod) : bool :=
-  match o with Some p => asg_pod qi (p_id p) | None => false end.
+Definition oasg (ps : list pinfo) (o : option pod) : bool :=
+  match o with Some p => asg_pod ps (p_id p) | None => false end.
 
 (* updatePodRequestNoLock (one atomic section: the path locks are held for the whole walk) *)
 Definition pod_req_sec (s : state) (q : Z) (old new : option pod) : state :=
-  match find s q with
-  | None => s
-  | Some _ =>
-      let d := vsub (oreq new) (oreq old) in
-      let dnp := vsub (onp new) (onp old) in
-      (* ghost: this pod now counts with new's request *)
-      let s0 := upd_pod s q (oid old new) (fun pi =>
-                  mkPI (pi_id pi) (pi_asg pi) (oreq new) (onp new) (pi_aused pi) (pi_anpused pi)) in
-      if viszero d && viszero dnp then s0 else delta_req s0 q d dnp true
-  end.
+  if exists_q s q then
+    let d := vsub (oreq new) (oreq old) in
+    let dnp := vsub (onp new) (onp old) in
+    (* ghost: this pod now counts with new's request *)
+    let s0 := upd_pod s q (oid old new) (fun pi =>
+                mkPI (pi_id pi) (pi_asg pi) (oreq new) (onp new) (pi_aused pi) (pi_anpused pi)) in
+    if viszero d && viszero dnp then s0 else delta_req s0 q d dnp true
+  else s.
 
 (* updatePodUsedNoLock *)
 Definition pod_used_sec (s : state) (q : Z) (old new : option pod) : state :=
-  match find s q with
-  | None => s
-  | Some qi =>
-      if negb (oasg qi new) && negb (oasg qi old) then s
-      else
-        let d := vsub (oreq new) (oreq old) in
-        let dnp := vsub (onp new) (onp old) in
-        let s0 := upd_pod s q (oid old new) (fun pi =>
-                    mkPI (pi_id pi) (pi_asg pi) (pi_areq pi) (pi_anp pi) (oreq new) (onp new)) in
-        if viszero d && viszero dnp then s0 else delta_used s0 q d dnp true
-  end.
+  if exists_q s q then
+    if negb (oasg (st_p s q) new) && negb (oasg (st_p s q) old) then s
+    else
+      let d := vsub (oreq new) (oreq old) in
+      let dnp := vsub (onp new) (onp old) in
+      let s0 := upd_pod s q (oid old new) (fun pi =>
+                  mkPI (pi_id pi) (pi_asg pi) (pi_areq pi) (pi_anp pi) (oreq new) (onp new)) in
+      if viszero d && viszero dnp then s0 else delta_used s0 q d dnp true
+  else s.
 
 (* ---------- pod handlers ---------- *)
 
@@ -210,10 +212,7 @@ Definition add_new_pod (s : state) (q : Z) (p : pod) : state :=
 
 Definition on_pod_add (s : state) (q : Z) (p : pod) : state :=
   if p_ign p then s
-  else match find s q with
-       | None => s
-       | Some qi => if has_pod qi (p_id p) then s else add_new_pod s q p
-       end.
+  else if exists_q s q && negb (has_pod (st_p s q) (p_id p)) then add_new_pod s q p else s.
 
 Definition remove_pod_req_first (s : state) (q : Z) (p : pod) : state :=
   let s1 := pod_req_sec s q (Some p) None in
@@ -225,29 +224,24 @@ Definition on_pod_delete (s : state) (q : Z) (p : pod) : state :=
 
 Definition on_pod_update (s : state) (qn qo : Z) (pn po : pod) : state :=
   if qo =? qn then
-    match find s qn with
-    | None => s
-    | Some qi =>
-        if negb (p_ign pn) then
-          let s1 := if has_pod qi (p_id pn)
-                    then pod_req_sec s qn (Some po) (Some pn)
-                    else pod_req_sec (cache_add s qn (p_id pn)) qn None (Some pn) in
-          if is_asg s1 qn (p_id pn) then pod_used_sec s1 qn (Some po) (Some pn)
-          else if p_bound pn
-               then pod_used_sec (set_asg s1 qn (p_id pn) true) qn None (Some pn)
-               else s1
-        else if has_pod qi (p_id po) then remove_pod_req_first s qo po else s
-    end
+    if exists_q s qn then
+      if negb (p_ign pn) then
+        let s1 := if has_pod (st_p s qn) (p_id pn)
+                  then pod_req_sec s qn (Some po) (Some pn)
+                  else pod_req_sec (cache_add s qn (p_id pn)) qn None (Some pn) in
+        if is_asg s1 qn (p_id pn) then pod_used_sec s1 qn (Some po) (Some pn)
+        else if p_bound pn
+             then pod_used_sec (set_asg s1 qn (p_id pn) true) qn None (Some pn)
+             else s1
+      else if has_pod (st_p s qn) (p_id po) then remove_pod_req_first s qo po else s
+    else s
   else
     let s1 := if exists_in s qo (p_id po) then
                 let s' := if is_asg s qo (p_id po) then pod_used_sec s qo (Some po) None else s in
                 cache_del (pod_req_sec s' qo (Some po) None) qo (p_id po)
               else s in
-    match find s1 qn with
-    | None => s1
-    | Some qi =>
-        if negb (has_pod qi (p_id pn)) && negb (p_ign pn) then add_new_pod s1 qn pn else s1
-    end.
+    if exists_q s1 qn && negb (has_pod (st_p s1 qn) (p_id pn)) && negb (p_ign pn)
+    then add_new_pod s1 qn pn else s1.
 
 Definition reserve_pod (s : state) (q : Z) (p : pod) : state :=
   if exists_in s q (p_id p) && negb (is_asg s q (p_id p))
@@ -273,70 +267,74 @@ Definition migrate_pod (s : state) (p : pod) (qout qin : Z) : state :=
 
 (* ---------- quota handlers ---------- *)
 
-(* the fields of an ElasticQuota object that NewQuotaInfoFromQuota reads (shared weight does
-   not enter the accounting) *)
-Record qspec := mkSpec {
-  qs_name : Z; qs_parent : Z; qs_isparent : bool; qs_lend : bool; qs_max : vec; qs_min : vec
-}.
-
 (* doUpdateOneGroupMaxQuotaNoLock *)
 Definition do_update_max (s : state) (n : Z) (m : vec) : state :=
-  match pathf s n, find s n with
-  | _ :: rest, Some qi =>
-      let qi' := set_max qi m in
-      walk_req (upd s n (fun _ => qi')) rest (vsub (lim qi') (lim qi)) vzero false
+  match pathf (st_sh s) n, find (st_sh s) n with
+  | _ :: rest, Some q =>
+      let q' := mkQ (q_name q) (q_parent q) (q_isparent q) (q_lend q) m (q_min q) in
+      let sh' := upd_sh (st_sh s) n (fun _ => q') in
+      let r := st_r s n in
+      mkSt sh' (walk_req sh' (st_r s) rest (vsub (lim q' r) (lim q r)) vzero false) (st_u s) (st_p s)
   | _, _ => s
   end.
 
 (* doUpdateOneGroupMinQuotaNoLock *)
 Definition do_update_min (s : state) (n : Z) (m : vec) : state :=
-  match pathf s n, find s n with
-  | _ :: rest, Some qi =>
-      let qi1 := set_min qi m in
-      let r := q_r qi1 in
-      let qi' := set_r qi1 (mkR (freq qi1 (r_creq r)) (r_creq r) (r_sreq r) (r_np r) (r_snp r)) in
-      walk_req (upd s n (fun _ => qi')) rest (vsub (lim qi') (lim qi1)) vzero false
+  match pathf (st_sh s) n, find (st_sh s) n with
+  | _ :: rest, Some q =>
+      let q' := mkQ (q_name q) (q_parent q) (q_isparent q) (q_lend q) (q_max q) m in
+      let sh' := upd_sh (st_sh s) n (fun _ => q') in
+      let r := st_r s n in
+      let r' := mkR (freq q' (r_creq r)) (r_creq r) (r_sreq r) (r_np r) (r_snp r) in
+      mkSt sh' (walk_req sh' (fupd (st_r s) n r') rest (vsub (lim q' r') (lim q' r)) vzero false)
+           (st_u s) (st_p s)
   | _, _ => s
   end.
 
-(* deleteQuotaNoLock *)
+(* deleteQuotaNoLock (the entry leaves the map with its aggregates and its PodCache) *)
 Definition delete_quota (s : state) (n : Z) : state :=
-  match find s n with
+  match find (st_sh s) n with
   | None => s
-  | Some qi =>
-      let s1 := remove_q s n in
-      let d := vsub vzero (lim qi) in
-      let dnp := vsub vzero (r_np (q_r qi)) in
-      let s2 := if negb (viszero d) || negb (viszero dnp) then delta_req s1 (q_parent qi) d dnp false else s1 in
-      let du := vsub vzero (u_used (q_u qi)) in
-      let dnpu := vsub vzero (u_np (q_u qi)) in
-      if negb (viszero du) || negb (viszero dnpu) then delta_used s2 (q_parent qi) du dnpu false else s2
+  | Some q =>
+      let r := st_r s n in
+      let u := st_u s n in
+      let s1 := mkSt (remove_sh (st_sh s) n) (fupd (st_r s) n r0) (fupd (st_u s) n u0) (fupd (st_p s) n []) in
+      let d := vsub vzero (lim q r) in
+      let dnp := vsub vzero (r_np r) in
+      let s2 := if negb (viszero d) || negb (viszero dnp) then delta_req s1 (q_parent q) d dnp false else s1 in
+      let du := vsub vzero (u_used u) in
+      let dnpu := vsub vzero (u_np u) in
+      if negb (viszero du) || negb (viszero dnpu) then delta_used s2 (q_parent q) du dnpu false else s2
   end.
 
-(* updateQuotaInternalNoLock *)
-Definition update_internal (s : state) (sp : qspec) (old : option qinfo) : state :=
-  let n := qs_name sp in
-  let s1 := match old with
-            | Some _ => s
-            | None => s ++ [mkQ n (qs_parent sp) (qs_isparent sp) (qs_lend sp) vzero vzero r0 u0 []]
-            end in
-  let max_changed := match old with Some o => negb (veqb (qs_max sp) (q_max o)) | None => true end in
-  let s2 := if max_changed then do_update_max s1 n (qs_max sp) else s1 in
-  let min_changed := match old with Some o => negb (veqb (qs_min sp) (q_min o)) | None => true end in
-  if min_changed then do_update_min s2 n (qs_min sp) else s2.
+(* a quota entry as NewQuotaInfo makes it: no max, no min, zero aggregates *)
+Definition add_blank (s : state) (q : qshape) (pods : list pinfo) : state :=
+  let n := q_name q in
+  mkSt (st_sh s ++ [mkQ n (q_parent q) (q_isparent q) (q_lend q) vzero vzero])
+       (fupd (st_r s) n r0) (fupd (st_u s) n u0) (fupd (st_p s) n pods).
+
+(* updateQuotaInternalNoLock; [sp] = the fields NewQuotaInfoFromQuota reads of the ElasticQuota
+   object (shared weight does not enter the accounting) *)
+Definition update_internal (s : state) (sp : qshape) (old : option qshape) : state :=
+  let n := q_name sp in
+  let s1 := match old with Some _ => s | None => add_blank s sp [] end in
+  let max_changed := match old with Some o => negb (veqb (q_max sp) (q_max o)) | None => true end in
+  let s2 := if max_changed then do_update_max s1 n (q_max sp) else s1 in
+  let min_changed := match old with Some o => negb (veqb (q_min sp) (q_min o)) | None => true end in
+  if min_changed then do_update_min s2 n (q_min sp) else s2.
 
 (* updateQuotaNoLockWhenParentChange *)
-Definition parent_change (s : state) (sp : qspec) : state :=
-  let n := qs_name sp in
-  match find s n with
+Definition parent_change (s : state) (sp : qshape) : state :=
+  let n := q_name sp in
+  match find (st_sh s) n with
   | None => s
   | Some old =>
+      let ro := st_r s n in
+      let uo := st_u s n in
       let s1 := delete_quota s n in
-      let s2 := s1 ++ [mkQ n (qs_parent sp) (qs_isparent sp) (qs_lend sp) vzero vzero r0 u0 (q_pods old)] in
-      let s3 := do_update_max s2 n (qs_max sp) in
-      let s4 := do_update_min s3 n (qs_min sp) in
-      let ro := q_r old in
-      let uo := q_u old in
+      let s2 := add_blank s1 sp (st_p s n) in
+      let s3 := do_update_max s2 n (q_max sp) in
+      let s4 := do_update_min s3 n (q_min sp) in
       let s5 := if negb (viszero (r_sreq ro)) || negb (viszero (r_snp ro))
                 then delta_req s4 n (r_sreq ro) (r_snp ro) true else s4 in
       let dc := vsub (r_creq ro) (r_sreq ro) in
@@ -353,43 +351,42 @@ Definition parent_change (s : state) (sp : qspec) : state :=
 
 Definition special (n : Z) : bool := (n =? 1) || (n =? 2).
 
-(* clearForResetNoLock *)
-Definition clear_q (qi : qinfo) : qinfo := set_u (set_r qi r0) u0.
-
 (* what rebuildAllGroupQuotaNoLock re-adds for a quota *)
-Definition saved_of (qi : qinfo) : Z * (vec * vec * vec * vec) :=
-  let r := q_r qi in let u := q_u qi in
-  (q_name qi,
-   if q_isparent qi then (r_sreq r, r_snp r, u_sused u, u_snp u)
+Definition saved_of (s : state) (q : qshape) : Z * (vec * vec * vec * vec) :=
+  let r := st_r s (q_name q) in let u := st_u s (q_name q) in
+  (q_name q,
+   if q_isparent q then (r_sreq r, r_snp r, u_sused u, u_snp u)
    else (r_creq r, r_np r, u_used u, u_np u)).
 
 Definition readd (st : state) (x : Z * (vec * vec * vec * vec)) : state :=
   let '(n, (a, b, c, d)) := x in
   delta_used (delta_req st n a b true) n c d true.
 
-(* resetQuotaNoLock: every quota of the topology (all but system/default) is cleared, then its own
-   amounts are propagated again. The code walks a Go map; the model walks the list. *)
+(* resetQuotaNoLock: every quota of the topology (all but system/default) is cleared
+   (clearForResetNoLock), then its own amounts are propagated again. The code walks a Go map;
+   the model walks the list. *)
 Definition reset (s : state) : state :=
-  let topo := filter (fun qi => negb (special (q_name qi))) s in
-  let s0 := map (fun qi => if special (q_name qi) then qi else clear_q qi) s in
-  fold_left readd (map saved_of topo) s0.
+  let topo := filter (fun q => negb (special (q_name q))) (st_sh s) in
+  let s0 := mkSt (st_sh s)
+                 (fun n => if special n then st_r s n else r0)
+                 (fun n => if special n then st_u s n else u0) (st_p s) in
+  fold_left readd (map (saved_of s) topo) s0.
 
 (* updateQuotaInfoFromRemote *)
-Definition from_remote (sp : qspec) (qi : qinfo) : qinfo :=
-  mkQ (q_name qi) (qs_parent sp) (qs_isparent sp) (qs_lend sp) (qs_max sp) (qs_min sp)
-      (q_r qi) (q_u qi) (q_pods qi).
+Definition from_remote (sp : qshape) (q : qshape) : qshape :=
+  mkQ (q_name q) (q_parent sp) (q_isparent sp) (q_lend sp) (q_max sp) (q_min sp).
 
 (* UpdateQuota *)
-Definition update_quota (s : state) (sp : qspec) : state :=
-  let n := qs_name sp in
-  match find s n with
+Definition update_quota (s : state) (sp : qshape) : state :=
+  let n := q_name sp in
+  match find (st_sh s) n with
   | None => update_internal s sp None
   | Some loc =>
-      let meta_same := Bool.eqb (q_lend loc) (qs_lend sp) && Bool.eqb (q_isparent loc) (qs_isparent sp)
-                       && (q_parent loc =? qs_parent sp) in
+      let meta_same := Bool.eqb (q_lend loc) (q_lend sp) && Bool.eqb (q_isparent loc) (q_isparent sp)
+                       && (q_parent loc =? q_parent sp) in
       if meta_same then update_internal s sp (Some loc)
-      else if negb (q_parent loc =? qs_parent sp) then parent_change s sp
-      else reset (upd s n (from_remote sp))
+      else if negb (q_parent loc =? q_parent sp) then parent_change s sp
+      else reset (set_sh s (upd_sh (st_sh s) n (from_remote sp)))
   end.
 
 (* ---------- operations ---------- *)
@@ -401,7 +398,7 @@ Inductive op :=
 | OpReserve (q : Z) (p : pod)
 | OpUnreserve (q : Z) (p : pod)
 | OpMigrate (p : pod) (qout qin : Z)
-| OpQuotaUpdate (sp : qspec)
+| OpQuotaUpdate (sp : qshape)
 | OpQuotaDelete (n : Z)
 | OpReset
 | OpNode.            (* OnNodeAdd/Update/Delete: cluster total only *)
@@ -422,8 +419,8 @@ Definition step (s : state) (o : op) : state :=
 
 (* NewGroupQuotaManager(""): system and default quota under the root *)
 Definition init (sysmax defmax : vec) : state :=
-  [ mkQ 1 0 false true sysmax vzero r0 u0 [];
-    mkQ 2 0 false true defmax vzero r0 u0 [] ].
+  mkSt [ mkQ 1 0 false true sysmax vzero; mkQ 2 0 false true defmax vzero ]
+       (fun _ => r0) (fun _ => u0) (fun _ => []).
 
 Definition run (s : state) (h : list op) : state := fold_left step h s.
 
